@@ -54,6 +54,9 @@ type FuncSpec struct {
 	SSAName   string
 	Behavior  string // contract case (ACSL-style behavior): "" for the default one
 	NoSafety  bool   // panics end the path instead of being obligations (termination-only behaviors)
+	Driver    bool   // driver-level target (ghost I/O, fail-stop obligations)
+	AssumePre bool   // callee preconditions assumed, not proved
+	ExitNonZero bool // os.Exit must be called with a non-zero status
 }
 
 // Key identifies the contract case: the SSA name, plus "@behavior" for a named one.
